@@ -118,7 +118,10 @@ func frontExec(b *spec.Built, n *spec.Node, rec any, front string, prefill any, 
 		var set []string
 		for k, v := range vals {
 			if len(v) > 0 {
-				os.Setenv(k, v[0])
+				// the documented trimming of environment values is the trimming of white space as the library defines it everywhere else
+				// (Unicode white space): values are set with padding of several kinds, the reference sees the unpadded value
+				pads := []string{"", " ", "\t", "\u00a0", "\v", "\u2003\f", "\u0085", "\r\n", "\u3000 "}
+				os.Setenv(k, pads[len(k)%len(pads)]+v[0]+pads[(len(k)+len(v[0]))%len(pads)])
 				set = append(set, k)
 			}
 		}
